@@ -120,13 +120,17 @@ inline double mean_edge(const TriMesh& m) { double s = 0; long n = 0; for (auto&
 // A random base shape of bounded size (number of triangles <= max_faces), unit scale, centred at origin
 inline TriMesh random_shape(vh::Rng& g, int max_faces) {
     for (;;) {
-        int kind = g.range(0, 5); TriMesh m;
+        int kind = g.range(0, 6); TriMesh m;
         if (kind == 0) { int lv = g.range(0, 3); m = icosphere(lv); }
         else if (kind == 1) { int n = g.range(1, 6); m = box(n, 1, g.uni(0.5, 2), g.uni(0.5, 2)); }
         else if (kind == 2) { m = uvsphere(g.range(4, 16), g.range(3, 10)); }
         else if (kind == 3) { m = prism(g.range(3, 12), g.range(1, 5), g.uni(0.4, 2)); }
         else if (kind == 4) { m = icosphere(g.range(1, 3)); scale(m, 1, g.uni(0.4, 1), g.uni(0.4, 1)); m.name += "ell"; }
-        else { m = icosphere(g.range(1, 3)); star_deform(m, g, 0.25); m.name += "star"; }
+        else if (kind == 5) { m = icosphere(g.range(1, 3)); star_deform(m, g, 0.25); m.name += "star"; }
+        else {   // cup: a sphere with a dent that reaches beyond its centre (non-convex, not star-shaped about the node mean)
+            m = icosphere(g.range(2, 3)); Rot r = rot_random(g); const double th0 = g.uni(0.6, 1.0), depth = g.uni(1.1, 1.6);
+            for (auto& p : m.P) { auto q = rapply(r, p); double th = std::acos(std::max(-1.0, std::min(1.0, q[2]))); if (th < th0) { double f = 1 - depth * (1 + std::cos(M_PI * th / th0)) / 2; for (auto& c : p) c *= f; } }
+            m.name += "cup"; }
         if ((int)m.T.size() <= max_faces) return m;
     }
 }
